@@ -39,8 +39,8 @@ def make_input(r, kind, solid_only=False, with_cpal=False, want_gap=False, minim
             fmt = fmt.replace("glyf", flavour)  # CFF / CFF2 outlines: glue_together reorders glyphs of an OTF
         pal = svggen.FontPalette(r)
         srcs = []
-        if many_groups or r.random() < 0.5:
-            if many_groups or r.random() < 0.4:
+        if many_groups or want_gap or r.random() < 0.5:
+            if many_groups or want_gap or r.random() < 0.4:
                 # several independent sharing groups of 1-3 glyphs: several multi-glyph SVG documents at odd and even
                 # glyph ids, some of them across id 8 or 16
                 srcs = []
@@ -59,7 +59,14 @@ def make_input(r, kind, solid_only=False, with_cpal=False, want_gap=False, minim
         if len(srcs) >= 2 and (want_gap or r.random() < 0.35):
             # a source that paints nothing, between two that do: it gets a glyph id but no colour record and no
             # bitmap, so the colour glyphs are no longer one run of consecutive ids
-            srcs.insert(r.randint(1, len(srcs) - 1), '<svg xmlns="http://www.w3.org/2000/svg" viewBox="0 0 100 100"></svg>')
+            blank = '<svg xmlns="http://www.w3.org/2000/svg" viewBox="0 0 100 100"></svg>'
+            if len(srcs) >= 4 and r.random() < 0.7:
+                # two blanks: the colour glyphs form three runs, the first of them two or more glyphs long
+                k1 = r.randint(2, len(srcs) - 2)
+                srcs.insert(k1, blank)
+                srcs.insert(r.randint(k1 + 2, len(srcs) - 1), blank)
+            else:
+                srcs.insert(r.randint(1, len(srcs) - 1), blank)
             gap = True
         seqs = svggen.sequences(r, len(srcs), long_names=False)
         if gap:
@@ -68,6 +75,10 @@ def make_input(r, kind, solid_only=False, with_cpal=False, want_gap=False, minim
             while len(seqs) < len(srcs):
                 seqs.append((0xF0000 + len(seqs),))
             seqs = sorted(seqs)
+            if want_gap:
+                # code points whose glyph names sort like the sources do (u1F600, u1F601, ...): OT-SVG builds order
+                # their glyphs by name, so the blanks stay between the painted glyphs
+                seqs = [(0x1F600 + k,) for k in range(len(srcs))]
         cfg = svggen.font_config(r, (fmt,), user_transform=False, small_upem=False)
         cfg["keep_glyph_names"] = r.random() < 0.5
         cfg["clip_to_viewbox"] = True
@@ -179,7 +190,7 @@ def run_case(case):
     bitmaps = r.random() < 0.4
     keep = r.random() < 0.5
     colr_version = r.choice([0, 1])
-    if case["i"] % 8 in (0, 3):
+    if case["i"] % 8 in (0, 3, 5):
         bitmaps = True  # (make_input below gives these cases a blank glyph between colour glyphs when it can)
     if bitmaps:
         flags.append("--bitmaps")
@@ -190,7 +201,7 @@ def run_case(case):
     res = {"counters": {}, "maxes": {}, "violations": [], "tags": [kind] + flags}
     c = res["counters"]
     try:
-        data, desc = make_input(r, kind, solid_only=(kind == "picosvg" and colr_version == 0), with_cpal=with_cpal, want_gap=case["i"] % 8 in (0, 3), minimal=kind == "thirdparty" and case["i"] % 16 in (2, 10), flavour={4: "cff", 7: "cff2", 12: "cff2", 15: "cff"}.get(case["i"] % 16), many_groups=case["i"] % 12 in (4, 11))
+        data, desc = make_input(r, kind, solid_only=(kind == "picosvg" and colr_version == 0), with_cpal=with_cpal, want_gap=case["i"] % 8 in (0, 3, 5), minimal=kind == "thirdparty" and case["i"] % 16 in (2, 10), flavour={4: "cff", 7: "cff2", 12: "cff2", 15: "cff"}.get(case["i"] % 16), many_groups=case["i"] % 12 in (4, 11))
         if desc.get("config", {}).get("color_format", "").startswith("cff"):
             res["tags"].append("cff-outlines")
             c["inputs_with_cff_outlines"] = 1
@@ -255,6 +266,12 @@ def run_case(case):
             c["coloured_notdef_bitmaps_checked"] = 1
             if n0 != 1:
                 res["violations"].append(dict(ctx, what=f"the coloured .notdef has {n0} bitmaps in the output (COLR and SVG paint it)"))
+        if "CBLC" in after:
+            runs = [len(getattr(ist, "names", [])) for st in after["CBLC"].strikes for ist in st.indexSubTables]
+            if len(runs) >= 3:
+                c["outputs_with_3_or_more_bitmap_runs"] = c.get("outputs_with_3_or_more_bitmap_runs", 0) + 1
+                if runs[0] >= 2:
+                    c["outputs_with_3_runs_first_run_2plus"] = c.get("outputs_with_3_runs_first_run_2plus", 0) + 1
         if "SVG " in after and "COLR" in before:
             for _doc, g0, g1 in after["SVG "].docList:
                 if g1 > g0:
